@@ -27,9 +27,25 @@ def canon(e):
             out[2], out[3] = b, a
     if out[0] == "ctor" and len(out) == 3 and isinstance(out[1], str) and out[1].endswith("iterator") and is_expr(out[2]):
         return out[2]  # iterator -> const_iterator conversions are transparent
-    if out[0] == "cast" and len(out) == 3 and re.fullmatch(r"(unsigned |signed )?(int|long|long long|short|char|bool|int64_t|uint64_t|uint32_t|int32_t|size_t|unsigned|CAmount|unsigned int|unsigned long)", out[1] or ""):
-        return out[2]  # integral casts are transparent for guard comparison
+    if out[0] == "cast" and len(out) >= 5 and _value_preserving_cast(out[3], out[4]):
+        return out[2]  # widening integral casts of the same signedness are transparent for guard comparison
     return out
+
+
+_INT_TYPES = {"bool": (1, False), "char": (8, True), "signed char": (8, True), "unsigned char": (8, False), "short": (16, True),
+              "unsigned short": (16, False), "int": (32, True), "unsigned int": (32, False), "long": (64, True), "unsigned long": (64, False),
+              "long long": (64, True), "unsigned long long": (64, False)}
+
+
+def _value_preserving_cast(src, dst):
+    """Integral conversion that cannot change the value: same signedness and not narrowing, or unsigned to a wider signed type."""
+    a, b = _INT_TYPES.get((src or "").replace("const ", "").strip()), _INT_TYPES.get((dst or "").replace("const ", "").strip())
+    if a is None or b is None:
+        return False
+    (wa, sa), (wb, sb) = a, b
+    if sa == sb:
+        return wb >= wa
+    return (not sa) and sb and wb > wa
 
 
 def key(e):
